@@ -1,6 +1,8 @@
 package vc
 
 import (
+	"sort"
+	"os"
 	"fmt"
 	"go/token"
 	"go/types"
@@ -518,12 +520,49 @@ func (g *Gen) panicInstr(x *ssa.Panic) {
 	g.oblige("panic", "", x.Pos(), "false")
 }
 
+// returnOrdinal numbers the return statements of the function in source order (1-based), so that the ordinal of a
+// return does not depend on the order in which the SSA builder happens to emit the blocks.
+func (g *Gen) returnOrdinal(x *ssa.Return) int {
+	if g.retOrd == nil {
+		var rets []*ssa.Return
+		for _, b := range g.fn.Blocks {
+			for _, in := range b.Instrs {
+				if r, ok := in.(*ssa.Return); ok {
+					rets = append(rets, r)
+				}
+			}
+		}
+		sort.SliceStable(rets, func(i, j int) bool {
+			if rets[i].Pos() != rets[j].Pos() {
+				return rets[i].Pos() < rets[j].Pos()
+			}
+			return rets[i].Block().Index < rets[j].Block().Index
+		})
+		g.retOrd = map[*ssa.Return]int{}
+		for i, r := range rets {
+			g.retOrd[r] = i + 1
+		}
+	}
+	return g.retOrd[x]
+}
+
 func (g *Gen) ret(x *ssa.Return) {
+	if len(g.inlStack) > 0 {
+		f := g.inlStack[len(g.inlStack)-1]
+		var rs []string
+		for _, r := range x.Results {
+			rs = append(rs, g.val(r))
+		}
+		f.rets = append(f.rets, inlRet{pc: g.curPC, st: g.cur, results: rs})
+		return
+	}
 	// vacuity guard: every return must be reachable under all the facts collected so far
 	g.nret++
-	if !g.spec.DeadReturns[g.nret] {
-		g.obls = append(g.obls, &Obl{Name: fmt.Sprintf("%s:canary:return%d", g.key, g.nret), Kind: "canary", Func: g.key, Prefix: len(g.cmds), Goal: sNot(g.curPC), Canary: true, Pos: g.posOf(x.Pos())})
+	ord := g.returnOrdinal(x)
+	if os.Getenv("VCHECK_RETMAP") != "" {
+		fmt.Fprintf(os.Stderr, "RETMAP %s %d %d\n", g.key, g.nret, ord)
 	}
+	g.obls = append(g.obls, &Obl{Name: fmt.Sprintf("%s:canary:return%d", g.key, ord), Kind: "canary", Func: g.key, Prefix: len(g.cmds), Goal: sNot(g.curPC), Canary: true, ExpectDead: g.spec.DeadReturns[ord], Pos: g.posOf(x.Pos())})
 	env := g.baseEnv()
 	env.st = g.cur
 	env.old = g.entry
